@@ -1,13 +1,83 @@
 // C04 - all documented routes to the same quantity agree
 #include "monitors.hpp"
+#include <map>
+#include <set>
 
 namespace vf{
 
 static const double EPS = std::numeric_limits<double>::epsilon();
+static std::vector<double> g_c04_last_probe; // the point of the last interpolation-weight query (used to classify wavelet solver failures)
+// order 0 (piece-wise constant, ternary tree: parent p/3, one step-parent for the outer kids of interior nodes): are all parents / step-parents present?
+static bool pwc_parents_loaded(TasmanianSparseGrid const &g){
+    int d = g.getNumDimensions(), n = g.getNumPoints();
+    const int *idx = g.getPointsIndexes();
+    std::set<std::vector<int>> have;
+    for(int i=0; i<n; i++) have.insert(std::vector<int>(idx + (size_t) i * (size_t) d, idx + (size_t)(i + 1) * (size_t) d));
+    auto pow3_above = [](int i)->int{ int r = 1; while(i >= 1){ i /= 3; r *= 3; } return r; };
+    for(int i=0; i<n; i++){
+        std::vector<int> p(idx + (size_t) i * (size_t) d, idx + (size_t)(i + 1) * (size_t) d);
+        for(int j=0; j<d; j++){
+            int pt = p[(size_t) j];
+            if (pt == 0) continue;
+            p[(size_t) j] = pt / 3; if (!have.count(p)) return false;
+            int t = pow3_above(pt), sp = -1;
+            if (pt != t / 3 && pt != t - 1){ if (pt % 3 == 2 && pt % 2 == 0) sp = pt / 3 + 1; else if (pt % 3 == 0 && pt % 2 == 1) sp = pt / 3 - 1; }
+            if (sp >= 0){ p[(size_t) j] = sp; if (!have.count(p)) return false; }
+            p[(size_t) j] = pt;
+        }
+    }
+    return true;
+}
+// single-parent rules only (localp, localp0 with order != 0); everything else counts as not closed
+static bool hierarchy_closed_under_nearest_ancestors(TasmanianSparseGrid const &g){
+    TypeOneDRule rule = g.getRule(); int order = g.getOrder();
+    if (!(rule == rule_localp || rule == rule_localp0) || order == 0) return false;
+    int d = g.getNumDimensions(), n = g.getNumPoints();
+    if (n == 0 || n > 1500 || g.isSetConformalTransformASIN()) return false;
+    const int *idx = g.getPointsIndexes();
+    std::map<std::vector<int>, int> slot;
+    for(int i=0; i<n; i++) slot[std::vector<int>(idx + (size_t) i * (size_t) d, idx + (size_t)(i + 1) * (size_t) d)] = i;
+    // nearest present ancestor links
+    std::vector<std::vector<int>> up((size_t) n);
+    for(int i=0; i<n; i++){
+        std::vector<int> p(idx + (size_t) i * (size_t) d, idx + (size_t)(i + 1) * (size_t) d);
+        for(int j=0; j<d; j++){
+            int save = p[(size_t) j], cur = save;
+            while(true){
+                int pa = hier::parent(rule, order, cur);
+                if (pa < 0) break;
+                p[(size_t) j] = pa;
+                auto it = slot.find(p);
+                if (it != slot.end()){ up[(size_t) i].push_back(it->second); break; }
+                cur = pa;
+            }
+            p[(size_t) j] = save;
+        }
+    }
+    // basis functions that are non-zero at the nodes (from the library's basis evaluation, a different route than surpluses / trees)
+    std::vector<double> x = g.getPoints(), M;
+    g.evaluateHierarchicalFunctions(x, M);
+    if (M.size() != (size_t) n * (size_t) n) return false;
+    std::vector<char> reach((size_t) n);
+    for(int i=0; i<n; i++){
+        std::fill(reach.begin(), reach.end(), 0);
+        std::vector<int> stack = up[(size_t) i];
+        while(!stack.empty()){ int q = stack.back(); stack.pop_back(); if (reach[(size_t) q]) continue; reach[(size_t) q] = 1; for(int r : up[(size_t) q]) if (!reach[(size_t) r]) stack.push_back(r); }
+        for(int j=0; j<n; j++) if (j != i && M[(size_t) i * (size_t) n + (size_t) j] != 0.0 && !reach[(size_t) j]) return false;
+    }
+    return true;
+}
 static std::string famname(TasmanianSparseGrid const &g){
     // Local polynomial grids whose hierarchy has missing parents (classic refinement, construction in progress) get their own key class:
     // there the surplus computation and the transposed transform behind the weight routes are not transposes of each other (recorded finding)
-    if (g.isLocalPolynomial()) return (all_parents_loaded(g) == 0) ? "localp:incomplete-hierarchy" : "localp";
+    // The finding is narrowed structurally: the library links every point to its NEAREST PRESENT ancestor in each direction, so the forward sweep sees
+    // the set A(i) of points reachable upwards through those links.  When A(i) contains every basis function that is non-zero at node i (for all i)
+    // the sweep is the exact triangular solve and all routes must agree although parents are missing: such grids ("closed") keep the plain key.
+    if (g.isLocalPolynomial()){
+        if (g.getOrder() == 0) return pwc_parents_loaded(g) ? "localp" : "localp:incomplete-hierarchy";
+        if (all_parents_loaded(g) != 0) return "localp";
+        return hierarchy_closed_under_nearest_ancestors(g) ? "localp" : "localp:incomplete-hierarchy";
+    }
     return g.isGlobal() ? "global" : g.isSequence() ? "sequence" : g.isWavelet() ? "wavelet" : "fourier";
 }
 
@@ -58,6 +128,7 @@ static bool check_eval_routes(TasmanianSparseGrid const &g, CaseCtx &c, Rng &rng
         std::vector<double> y1((size_t) m, poison()), yf((size_t) m, poison());
         g.evaluate(xi.data(), y1.data());
         g.evaluateFast(xi.data(), yf.data());
+        g_c04_last_probe = xi;
         std::vector<double> w = g.getInterpolationWeights(xi);
         if ((int) w.size() != n){ c.viol("routes:weights-size:" + fam, J().str("after", after).obj()); return false; }
         for(int k=0; k<m; k++){
@@ -79,7 +150,7 @@ static bool check_eval_routes(TasmanianSparseGrid const &g, CaseCtx &c, Rng &rng
             // weights/basis values that vanish in exact arithmetic carry noise of order eps, hence the floor proportional to max|v|
             double floor_v = 2e3 * EPS * vmx * std::sqrt((double) n);
             double tolw = 2e3 * EPS * (aw + ah + std::fabs(ye)) + floor_v + 1e-290, tolh = tolw;
-            if (g.isWavelet()){ tolw += 1e-9 * (aw + 1e-300); tolh += 1e-9 * (aw + ah); }
+            if (g.isWavelet()){ tolw += 1e-8 * (aw + 1e-300); tolh += 1e-8 * (aw + ah); } // iterative solves stopped at a residual of 1e-12, matrices of refined grids have condition 1e3..1e4 (5.9e-9 relative seen once in 20000 thorough cases)
             if (g.isFourier()){ tolw += 1e-9 * (aw + 1e-300); tolh += 1e-9 * (aw + ah); } // the closed-form weights divide by 1 - exp(2 pi i (x - node)): digits are lost near nodes // FFT based coefficients versus closed-form weights: different summation orders over 3^l terms // weights of wavelets come from an iterative transposed solve (tol 1e-12)
             if (!(std::fabs(ye - sw) <= tolw)){
                 c.viol("routes:evaluate-vs-interpolation-weights:" + fam, J().str("after", after).vec("x", xi).i("output", k).num("evaluate", ye).num("weights_times_values", sw).num("tol", tolw).obj()); return false; }
@@ -313,6 +384,15 @@ void mon_c04(CaseCtx &c, Rng &rng){
     HOpts ho; ho.max_points = go.max_points;
     int nsteps = rng.range(1, c.thorough ? 8 : 5);
     int checked_states = 0;
+    // a disagreement of routes on a wavelet grid whose coefficients do not solve the collocation system is the solver finding of C01 seen through
+    // another route: it is classified with the same dense LU and reported under its own key class (everything else keeps the plain key)
+    c.key_filter = [&](std::string const &key)->std::string{
+        if (!h.g.isWavelet() || h.g.getNumLoaded() == 0 || h.g.getNumOutputs() == 0 || key.find(":wavelet") == std::string::npos) return key;
+        std::string cls = wavelet_failure_class(h.g);
+        if (cls.empty() && key.find("interpolation-weights") != std::string::npos && (int) g_c04_last_probe.size() == h.g.getNumDimensions())
+            cls = wavelet_weights_failure_class(h.g, g_c04_last_probe); // the transposed solve behind the weights
+        return cls.empty() ? key : "wavelet-solver:" + cls + ":" + key;
+    };
     auto check_state = [&](std::string const &after)->bool{
         TasmanianSparseGrid const &g = h.g;
         if (g.getNumPoints() == 0) return true;
